@@ -6,8 +6,9 @@ CONSTANTS
   EraSecs = 64
   Epoch <- EpochScaled
   ForwardOnlyEraUnfold = FALSE
+  WholeSecondUnfold = FALSE
   RefSecs <- RefAll
-  RefNs <- RefNsExh
+  RefNs <- RefNsDeep
   Offs <- OffAll
   NsVals <- NsCls
 INVARIANTS RoundTrip Order RoundTripNs EraOK WellFormed Separable
